@@ -94,6 +94,7 @@ type benignParams struct {
 	SrvChain     int  // GM: 0 direct leaf, 1 via intermediate
 	SrvMissing   bool // GMSSL server configured with the signing certificate only
 	VHost        bool // the server holds two identities; the client asks for the second name (server2.sim)
+	VHostCB      bool // VHost on a TLS-only server: static default certificate + GetCertificate callback serving the second name
 	MultiCert    bool // GMSSL client holding several certificates, an RSA one first: the SM2 one is the one to send
 	Reneg        int  // client's Config.Renegotiation (never / once / freely): no effect on a benign session
 	BigSize      int  // BigChain: bytes of padding certificates per chain (0 = 17 500; 40 000 makes the transcript of a mutually authenticated TLS handshake exceed 64 KiB before the ClientKeyExchange)
@@ -244,6 +245,9 @@ func drawBenignParams(c *simkit.Choice) benignParams {
 		p.BigSize = 40000
 	}
 	p.Reneg = c.Weighted([]int{4, 1, 1}, simkit.LScen)
+	if p.VHost && p.SMode == modeTLS && p.SrvCertSrc == 0 {
+		p.VHostCB = c.Bool(1, 2, simkit.LScen)
+	}
 	if p.CGM && p.ClientCert == 1 && p.CliCertSrc == 0 && p.Peer != peerStdClient {
 		p.MultiCert = c.Bool(1, 3, simkit.LScen)
 	}
@@ -480,7 +484,7 @@ func gmOnly(l []uint16) []uint16 {
 
 func (p *benignParams) String() string {
 	return fmt.Sprintf("alpn=%v/%v curves=%v smode=%d cgm=%v peer=%d csuites=%x ssuites=%x prefsrv=%v cver=[%x,%x] sver=[%x,%x] auth=%d ccert=%d cas=%v ssrc=%d csrc=%d tick=%v dyn=%v skey=%d cberr=%d cverify=%d chain=%d missing=%v vhost=%v",
-		p.CProtos, p.SProtos, p.Curves, p.SMode, p.CGM, p.Peer, p.CSuites, p.SSuites, p.PreferServer, p.CMin, p.CMax, p.SMin, p.SMax, p.ClientAuth, p.ClientCert, p.SrvClientCAs, p.SrvCertSrc, p.CliCertSrc, p.Tickets, p.DynOff, p.SrvKey, p.CallbackErr, p.CVerify, p.SrvChain, p.SrvMissing, p.VHost) + fmt.Sprintf(" outer=%d bigchain=%v reneg=%d multicert=%v clikey=%d bigsize=%d", p.OuterCfg, p.BigChain, p.Reneg, p.MultiCert, p.CliKey, p.BigSize)
+		p.CProtos, p.SProtos, p.Curves, p.SMode, p.CGM, p.Peer, p.CSuites, p.SSuites, p.PreferServer, p.CMin, p.CMax, p.SMin, p.SMax, p.ClientAuth, p.ClientCert, p.SrvClientCAs, p.SrvCertSrc, p.CliCertSrc, p.Tickets, p.DynOff, p.SrvKey, p.CallbackErr, p.CVerify, p.SrvChain, p.SrvMissing, p.VHost) + fmt.Sprintf(" outer=%d bigchain=%v reneg=%d multicert=%v clikey=%d bigsize=%d vhostcb=%v", p.OuterCfg, p.BigChain, p.Reneg, p.MultiCert, p.CliKey, p.BigSize, p.VHostCB)
 }
 
 // serverConfig builds the gmtls server configuration.
@@ -536,7 +540,18 @@ func (p *benignParams) serverConfig(s *simkit.Sim, ent *simkit.Stream, res *endR
 			c.Certificates = []gmtls.Certificate{sign, enc, std}
 		case modeTLS:
 			c.Certificates = []gmtls.Certificate{std}
-			if p.VHost {
+			if p.VHost && p.VHostCB {
+				// a static default certificate plus a per-name callback: "GetCertificate ...
+				// will only be called if the client supplies SNI information or if
+				// Certificates is empty" - the client does supply the second name
+				c.GetCertificate = func(h *gmtls.ClientHelloInfo) (*gmtls.Certificate, error) {
+					res.SeenSNI = append(res.SeenSNI, h.ServerName)
+					if h.ServerName == "server2.sim" {
+						return &std2, nil
+					}
+					return nil, nil
+				}
+			} else if p.VHost {
 				c.Certificates = []gmtls.Certificate{std, std2}
 				c.BuildNameToCertificate()
 			}
